@@ -1,2 +1,390 @@
-/- Oracle for C13 (stub: replaced when the property's model is built). -/
-def main : IO Unit := pure ()
+/-
+  Oracle for C13.  Reads the harness' lines on stdin:
+
+    C <id> fifo=<0|1> depth=<D> ns=<n> nr=<n> dsize=<w> top=<module> senders=a,b receivers=c,d
+    V <one-line S-expression of the parsed Verilog file set>
+    T <id> <mode> <pRaise> <pDrop> <w0>,<w1>,…      mode = agents | raw ; w = hex word per cycle
+    X <id> <maxStates>                               exhaustive exploration (BFS, all input valuations)
+    S                                                run the Vlog engine self-tests
+
+  and prints one result line per C/T/X/S line:
+
+    C <id> ok regs=<n> | C <id> ERROR <msg>
+    T <id> ok cycles=… wfire=… rfire=… full=… empty=… resets=… maxocc=… wrap=… blockedW=… contended=…
+    T <id> FAIL kind=<mismatch|property|vlog-error|model-inv> cycle=<k> <detail>
+    X <id> ok states=… transitions=… | X <id> FAIL …
+
+  For every cycle the SAME input valuation is applied to `Vlog.cycle` on the parsed module and to
+  `Stack.step`; afterwards ALL registers of the module are compared with the model state.  The
+  property itself is evaluated on the implementation's outputs alone by a scoreboard (`sb`): every
+  rising Ack is a transfer, writes append, reads must return the element prescribed by the
+  discipline, flags must reflect the occupancy.
+-/
+import BMV.Stack
+import BMV.Lines
+import BMV.Vlog.Elab
+import BMV.Vlog.SelfTest
+import Std.Data.HashSet
+open BMV.Stack BMV.Lines BMV.Vlog
+
+structure Agent where
+  data : Nat
+  req : Nat      -- Write / Read input
+  ack : Nat
+  name : String
+
+structure Ix where
+  clk : Nat
+  reset : Nat
+  empty : Nat
+  full : Nat
+  memory : Nat
+  sp : Nat
+  rp : Option Nat
+  wp : Option Nat
+  sendSM : Nat
+  recvSM : Nat
+  snd : Array Agent
+  rcv : Array Agent
+  /-- every signal of kind reg, to detect registers the model does not know -/
+  nregs : Nat
+
+structure Cfg13 where
+  id : String
+  c : Cfg
+  dsize : Nat
+  d : Design
+  ix : Ix
+
+def mkIx (d : Design) (c : Cfg) (senders receivers : List String) : R Ix := do
+  let ag (kind : String) (n : String) : R Agent := do
+    pure ⟨← d.sigIdx (n ++ "Data"), ← d.sigIdx (n ++ kind), ← d.sigIdx (n ++ "Ack"), n⟩
+  let snd ← senders.mapM (ag "Write")
+  let rcv ← receivers.mapM (ag "Read")
+  let rp ← if c.fifo then some <$> d.sigIdx "readsp" else pure none
+  let wp ← if c.fifo then some <$> d.sigIdx "writesp" else pure none
+  let ix : Ix := { clk := ← d.sigIdx "clk", reset := ← d.sigIdx "reset", empty := ← d.sigIdx "empty",
+                   full := ← d.sigIdx "full", memory := ← d.sigIdx "memory", sp := ← d.sigIdx "sp",
+                   rp, wp, sendSM := ← d.sigIdx "sendSM", recvSM := ← d.sigIdx "recvSM",
+                   snd := snd.toArray, rcv := rcv.toArray, nregs := 0 }
+  -- every register of the design must be one the model knows (the loop variable `i` is scratch)
+  let known : List Nat := [ix.memory, ix.sp, ix.sendSM, ix.recvSM] ++ ix.rp.toList ++ ix.wp.toList
+    ++ snd.map (·.ack) ++ rcv.map (·.ack) ++ rcv.map (·.data)
+  let mut n := 0
+  for i in [0:d.sigs.size] do
+    let s := d.sigs[i]!
+    if s.kind == .reg && !s.isInt then
+      n := n + 1
+      if !known.contains i then throw s!"register {s.name} of the emitted module is not modelled"
+  if !c.fifo && (d.sigIdx? "readsp").isSome then throw "LIFO module has a readsp register"
+  let mem := d.sigs[ix.memory]!
+  if mem.depth != c.D then throw s!"memory depth {mem.depth} ≠ configured depth {c.D}"
+  d.checkClock ix.clk
+  pure { ix with nregs := n }
+
+/-- model state ← registers of the circuit -/
+def readBack (k : Cfg13) (st : State) : S Nat :=
+  let ix := k.ix
+  let mem := st[ix.memory]?.getD #[]
+  { mem := fun i => mem[i]?.getD 0
+    sp := st.get ix.sp
+    rp := (ix.rp.map st.get).getD 0
+    wp := (ix.wp.map st.get).getD 0
+    sendSM := st.get ix.sendSM
+    recvSM := st.get ix.recvSM
+    sAck := fun i => (ix.snd[i]?.map fun a => st.get a.ack == 1).getD false
+    rAck := fun i => (ix.rcv[i]?.map fun a => st.get a.ack == 1).getD false
+    rData := fun i => (ix.rcv[i]?.map fun a => st.get a.data).getD 0 }
+
+/-- canonical register valuation of a model state (used for comparison and as BFS key) -/
+def modelKey (c : Cfg) (s : S Nat) : List Nat :=
+  (List.range c.D).map s.mem ++ [s.sp, s.rp, s.wp, s.sendSM, s.recvSM]
+    ++ (List.range c.nS).map (fun i => if s.sAck i then 1 else 0)
+    ++ (List.range c.nR).map (fun i => if s.rAck i then 1 else 0)
+    ++ (List.range c.nR).map s.rData
+
+/-- rebuild a model state from its key (keeps closures shallow on long traces) -/
+def ofKey (c : Cfg) (l : List Nat) : S Nat :=
+  let a := l.toArray
+  let g (i : Nat) := a[i]?.getD 0
+  let o := c.D
+  { mem := fun i => if i < c.D then g i else 0
+    sp := g o, rp := g (o + 1), wp := g (o + 2), sendSM := g (o + 3), recvSM := g (o + 4)
+    sAck := fun i => i < c.nS && g (o + 5 + i) == 1
+    rAck := fun i => i < c.nR && g (o + 5 + c.nS + i) == 1
+    rData := fun i => if i < c.nR then g (o + 5 + c.nS + c.nR + i) else 0 }
+
+def keyNames (k : Cfg13) : List String :=
+  (List.range k.c.D).map (fun i => s!"memory[{i}]") ++ ["sp", "readsp", "writesp", "sendSM", "recvSM"]
+    ++ k.ix.snd.toList.map (·.name ++ "Ack") ++ k.ix.rcv.toList.map (·.name ++ "Ack")
+    ++ k.ix.rcv.toList.map (·.name ++ "Data")
+
+/-- first register on which circuit and model differ (also the two flag outputs) -/
+def compareAll (k : Cfg13) (st : State) (s : S Nat) : Option String :=
+  let a := modelKey k.c (readBack k st)
+  let b := modelKey k.c s
+  let names := keyNames k
+  let diffs := (List.zip names (List.zip a b)).filter fun (_, x, y) => x != y
+  match diffs with
+  | (n, x, y) :: _ => some s!"reg={n} vlog={x} model={y}"
+  | [] =>
+    let e := st.get k.ix.empty
+    let f := st.get k.ix.full
+    if e != (if s.empty then 1 else 0) then some s!"reg=empty vlog={e} model={s.empty}"
+    else if f != (if s.full k.c then 1 else 0) then some s!"reg=full vlog={f} model={s.full k.c}"
+    else none
+
+/-- the model's own invariant, evaluated (cross-check of the theorem `inv_step`) -/
+def invB (c : Cfg) (s : S Nat) : Bool :=
+  decide (s.sp ≤ c.D) && decide (s.sendSM < c.nS) && decide (s.recvSM < c.nR) &&
+  (if c.fifo then decide (s.rp < c.D) && decide (s.wp < c.D) && (s.rp + s.sp) % c.D == s.wp
+   else s.rp == 0 && s.wp == 0)
+
+structure InVal where
+  reset : Bool
+  wr : Array Bool
+  wdata : Array Nat
+  rd : Array Bool
+
+def InVal.toModel (i : InVal) : In Nat :=
+  { reset := i.reset, wr := fun k => i.wr[k]?.getD false, wdata := fun k => i.wdata[k]?.getD 0,
+    rd := fun j => i.rd[j]?.getD false }
+
+def InVal.toVlog (k : Cfg13) (i : InVal) : List (Nat × Nat) :=
+  let b (x : Bool) : Nat := if x then 1 else 0
+  [(k.ix.reset, b i.reset)]
+  ++ (List.range k.ix.snd.size).flatMap (fun n =>
+      let a := k.ix.snd[n]!
+      [(a.req, b (i.wr[n]?.getD false)), (a.data, i.wdata[n]?.getD 0)])
+  ++ (List.range k.ix.rcv.size).map (fun n => ((k.ix.rcv[n]!).req, b (i.rd[n]?.getD false)))
+
+/-- running statistics of a trace (the "branches hit" of the evidence) -/
+structure Stats where
+  cycles : Nat := 0
+  wfire : Nat := 0
+  rfire : Nat := 0
+  fullSeen : Nat := 0
+  emptySeen : Nat := 0
+  resets : Nat := 0
+  maxocc : Nat := 0
+  wrap : Nat := 0        -- FIFO pointer wrapped / LIFO reached depth
+  blockedW : Nat := 0    -- a write request waited because reads had priority
+  contended : Nat := 0   -- more than one agent of a side requesting in a cycle
+
+structure Run where
+  st : State
+  s : S Nat
+  sb : List Nat := []      -- scoreboard: elements the implementation has acknowledged, oldest first
+  prev : InVal             -- inputs of the previous cycle (agents keep requests/data stable)
+  stats : Stats := {}
+
+def hexVal (s : String) : Nat :=
+  s.toList.foldl (fun acc c =>
+    let d := if '0' ≤ c ∧ c ≤ '9' then c.toNat - 48 else if 'a' ≤ c ∧ c ≤ 'f' then c.toNat - 87
+             else if 'A' ≤ c ∧ c ≤ 'F' then c.toNat - 55 else 0
+    acc * 16 + d) 0
+
+def bitsAt (w lo n : Nat) : Nat := (w >>> lo) % (2 ^ n)
+
+/-- inputs of this cycle from the random word.
+    agents: idle → raise with probability pRaise/8 (new data); requesting, no ack → hold request
+    and data; acknowledged → drop with probability pDrop/8.  raw: everything random, reset 1/64. -/
+def nextInputs (k : Cfg13) (mode : String) (pRaise pDrop : Nat) (w : Nat) (r : Run) : InVal :=
+  let nS := k.c.nS
+  let nR := k.c.nR
+  let dmask := 2 ^ k.dsize
+  if mode == "raw" then
+    { reset := bitsAt w 0 6 == 0
+      wr := (Array.range nS).map fun a => bitsAt w (8 + 3 * a) 1 == 1
+      rd := (Array.range nR).map fun a => bitsAt w (8 + 3 * (nS + a)) 1 == 1
+      wdata := (Array.range nS).map fun a => bitsAt w (32 + 8 * a) 8 % dmask }
+  else
+    let ack (a : Agent) := r.st.get a.ack == 1
+    let decide (req : Bool) (acked : Bool) (ch : Nat) : Bool :=
+      if !req then decide (ch < pRaise) else if acked then !(decide (ch < pDrop)) else true
+    let wr := (Array.range nS).map fun a =>
+      decide (r.prev.wr[a]?.getD false) (ack (k.ix.snd[a]!)) (bitsAt w (8 + 3 * a) 3)
+    let rd := (Array.range nR).map fun a =>
+      decide (r.prev.rd[a]?.getD false) (ack (k.ix.rcv[a]!)) (bitsAt w (8 + 3 * (nS + a)) 3)
+    let wdata := (Array.range nS).map fun a =>
+      if r.prev.wr[a]?.getD false then r.prev.wdata[a]?.getD 0 else bitsAt w (32 + 8 * a) 8 % dmask
+    { reset := false, wr, rd, wdata }
+
+def countTrue (a : Array Bool) : Nat := a.foldl (fun n b => if b then n + 1 else n) 0
+
+/-- one cycle on both sides + all checks; `Except.error (kind, detail)` on the first failure -/
+def stepBoth (k : Cfg13) (r : Run) (i : InVal) : Except (String × String) Run := do
+  let c := k.c
+  let st' ← match k.d.cycle k.ix.clk r.st (i.toVlog k) with
+    | .ok s => pure s
+    | .error e => throw ("vlog-error", e)
+  let s' := ofKey c (modelKey c (step 0 c r.s i.toModel))
+  -- (1) all registers
+  if let some m := compareAll k st' s' then throw ("mismatch", m)
+  if !invB c s' then throw ("model-inv", "the model left its invariant")
+  -- (2) the property on the implementation's outputs: scoreboard
+  let rise (a : Agent) : Bool := r.st.get a.ack == 0 && st'.get a.ack == 1
+  let wr := (List.range c.nS).filter fun n => rise (k.ix.snd[n]!)
+  let rd := (List.range c.nR).filter fun n => rise (k.ix.rcv[n]!)
+  let sb ← (if i.reset then
+      if wr.isEmpty && rd.isEmpty then pure [] else throw ("property", "ack raised during reset")
+    else match wr, rd with
+    | [], [] => pure r.sb
+    | [n], [] =>
+      if r.sb.length ≥ c.D then throw ("property", s!"write by sender {n} acknowledged while {r.sb.length} = depth elements are stored")
+      else pure (r.sb ++ [i.wdata[n]?.getD 0])
+    | [], [n] =>
+      let got := st'.get (k.ix.rcv[n]!).data
+      if c.fifo then
+        match r.sb with
+        | [] => throw ("property", s!"read by receiver {n} acknowledged while empty")
+        | x :: rest => if got == x then pure rest else
+          throw ("property", s!"receiver {n} got {got}, the FIFO discipline prescribes {x} (stored: {r.sb})")
+      else
+        match r.sb.getLast? with
+        | none => throw ("property", s!"read by receiver {n} acknowledged while empty")
+        | some x => if got == x then pure r.sb.dropLast else
+          throw ("property", s!"receiver {n} got {got}, the LIFO discipline prescribes {x} (stored: {r.sb})")
+    | _, _ => throw ("property", s!"several acknowledges in one cycle: senders {wr} receivers {rd}"))
+  let e := st'.get k.ix.empty == 1
+  let f := st'.get k.ix.full == 1
+  if e != sb.isEmpty then throw ("property", s!"empty={e} with {sb.length} stored elements")
+  if f != (sb.length == c.D) then throw ("property", s!"full={f} with {sb.length} of {c.D} stored elements")
+  -- an acknowledged request holds its ack until the request drops
+  for n in List.range c.nS do
+    let a := k.ix.snd[n]!
+    if !i.reset && r.st.get a.ack == 1 && st'.get a.ack != (if i.wr[n]?.getD false then 1 else 0) then
+      throw ("property", s!"ack of sender {n} not held until the request drops")
+  for n in List.range c.nR do
+    let a := k.ix.rcv[n]!
+    if !i.reset && r.st.get a.ack == 1 && st'.get a.ack != (if i.rd[n]?.getD false then 1 else 0) then
+      throw ("property", s!"ack of receiver {n} not held until the request drops")
+  let t := r.stats
+  let wrapped := if c.fifo then (s'.wp == 0 && r.s.wp != 0) || (s'.rp == 0 && r.s.rp != 0) else s'.sp == c.D
+  let stats : Stats :=
+    { cycles := t.cycles + 1, wfire := t.wfire + wr.length, rfire := t.rfire + rd.length
+      fullSeen := t.fullSeen + (if f then 1 else 0), emptySeen := t.emptySeen + (if e then 1 else 0)
+      resets := t.resets + (if i.reset then 1 else 0), maxocc := max t.maxocc sb.length
+      wrap := t.wrap + (if wrapped then 1 else 0)
+      blockedW := t.blockedW + (if !i.reset && rBranch c r.s i.toModel && countTrue i.wr > 0 then 1 else 0)
+      contended := t.contended + (if countTrue i.wr > 1 || countTrue i.rd > 1 then 1 else 0) }
+  pure { st := st', s := s', sb, prev := i, stats }
+
+def idleIn (c : Cfg) (reset : Bool) : InVal :=
+  { reset, wr := Array.replicate c.nS false, wdata := Array.replicate c.nS 0, rd := Array.replicate c.nR false }
+
+/-- power-on (all storage zero) followed by one reset cycle -/
+def startRun (k : Cfg13) : Except (String × String) Run := do
+  let st0 ← match k.d.init with
+    | .ok s => pure s
+    | .error e => throw ("vlog-error", e)
+  let r0 : Run := { st := st0, s := reset 0, prev := idleIn k.c true }
+  stepBoth k r0 (idleIn k.c true)
+
+def runTrace (k : Cfg13) (mode : String) (pRaise pDrop : Nat) (ws : List Nat) : String :=
+  match startRun k with
+  | .error (kind, m) => s!"FAIL kind={kind} cycle=0 {m}"
+  | .ok r0 =>
+    let rec go (r : Run) (n : Nat) : List Nat → String
+      | [] =>
+        let t := r.stats
+        s!"ok cycles={t.cycles} wfire={t.wfire} rfire={t.rfire} full={t.fullSeen} empty={t.emptySeen} resets={t.resets} maxocc={t.maxocc} wrap={t.wrap} blockedW={t.blockedW} contended={t.contended}"
+      | w :: ws =>
+        match stepBoth k r (nextInputs k mode pRaise pDrop w r) with
+        | .ok r' => go r' (n + 1) ws
+        | .error (kind, m) => s!"FAIL kind={kind} cycle={n} {m}"
+    go r0 1 ws
+
+/-! exhaustive exploration -/
+
+/-- all input valuations: one with reset, and every combination of requests and data without -/
+def allInputs (k : Cfg13) : List InVal :=
+  let nS := k.c.nS
+  let nR := k.c.nR
+  let bits := nS + nR + nS * k.dsize
+  idleIn k.c true :: (List.range (2 ^ bits)).map fun v =>
+    { reset := false
+      wr := (Array.range nS).map fun a => bitsAt v a 1 == 1
+      rd := (Array.range nR).map fun a => bitsAt v (nS + a) 1 == 1
+      wdata := (Array.range nS).map fun a => bitsAt v (nS + nR + a * k.dsize) k.dsize }
+
+/-- the circuit state restricted to its registers (inputs and wires are functions of them and
+    of the next inputs) -/
+def regKey (k : Cfg13) (st : State) : List Nat := modelKey k.c (readBack k st)
+
+partial def bfs (k : Cfg13) (maxStates : Nat) : String := Id.run do
+  match startRun k with
+  | .error (kind, m) => return s!"FAIL kind={kind} cycle=0 {m}"
+  | .ok r0 =>
+    let ins := allInputs k
+    let mut seen : Std.HashSet (List Nat) := {}
+    seen := seen.insert (regKey k r0.st)
+    let mut frontier : Array Run := #[r0]
+    let mut trans := 0
+    while !frontier.isEmpty do
+      let mut next : Array Run := #[]
+      for r in frontier do
+        for i in ins do
+          -- the scoreboard of a state is its abstraction (already compared equal to the model's)
+          let r := { r with sb := abs k.c r.s }
+          match stepBoth k r i with
+          | .error (kind, m) =>
+            return s!"FAIL kind={kind} state={regKey k r.st} input=reset:{i.reset},wr:{i.wr},rd:{i.rd},data:{i.wdata} {m}"
+          | .ok r' =>
+            trans := trans + 1
+            let key := regKey k r'.st
+            if !seen.contains key then
+              seen := seen.insert key
+              next := next.push { r' with stats := {} }
+      if seen.size > maxStates then
+        return s!"FAIL kind=bound states>{maxStates}"
+      frontier := next
+    return s!"ok states={seen.size} transitions={trans} inputs={ins.length}"
+
+/-! line protocol -/
+
+structure St where
+  cfgLine : Option (String × Cfg × Nat × List String × List String × String) := none
+  cur : Option Cfg13 := none
+
+def parseCfg (fs : List String) : Option (String × Cfg × Nat × List String × List String × String) :=
+  match fs with
+  | id :: rest =>
+    let g (key : String) := (kv rest key).getD ""
+    some (id, { fifo := g "fifo" == "1", D := nat! (g "depth"), nS := nat! (g "ns"), nR := nat! (g "nr") },
+          nat! (g "dsize"), commaList (g "senders"), commaList (g "receivers"), g "top")
+  | _ => none
+
+def stepLine (s : St) (line : String) : St × List String :=
+  if line.startsWith "C " then
+    ({ cfgLine := parseCfg (fields (line.drop 2).toString), cur := none }, [])
+  else if line.startsWith "V " then
+    match s.cfgLine with
+    | none => (s, ["C ? ERROR V line without C line"])
+    | some (id, c, dsize, snd, rcv, top) =>
+      let res : R Cfg13 := do
+        if !(decide c.WF) then throw "configuration outside the model (depth, senders, receivers ≥ 1)"
+        if snd.length != c.nS || rcv.length != c.nR then throw "sender/receiver lists do not match ns/nr"
+        let d ← Design.ofString (line.drop 2).toString (if top == "" then none else some top)
+        let ix ← mkIx d c snd rcv
+        pure { id, c, dsize, d, ix }
+      match res with
+      | .ok k => ({ s with cur := some k }, [s!"C {id} ok regs={k.ix.nregs} sigs={k.d.sigs.size}"])
+      | .error e => ({ s with cur := none }, [s!"C {id} ERROR {e}"])
+  else if line.startsWith "T " then
+    match fields line, s.cur with
+    | [_, id, mode, pr, pd, ws], some k =>
+      (s, [s!"T {id} " ++ runTrace k mode (nat! pr) (nat! pd) ((ws.splitOn ",").map hexVal)])
+    | _ :: id :: _, _ => (s, [s!"T {id} FAIL kind=no-design cycle=0 configuration did not elaborate"])
+    | _, _ => (s, ["T ? FAIL kind=bad-line cycle=0"])
+  else if line.startsWith "X " then
+    match fields line, s.cur with
+    | [_, id, mx], some k => (s, [s!"X {id} " ++ bfs k (nat! mx)])
+    | _ :: id :: _, _ => (s, [s!"X {id} FAIL kind=no-design"])
+    | _, _ => (s, ["X ? FAIL kind=bad-line"])
+  else if line == "S" then
+    (s, BMV.Vlog.SelfTest.report)
+  else (s, [])
+
+def main : IO Unit := do
+  let _ ← foldStdin ({} : St) stepLine
